@@ -5,7 +5,7 @@ from __future__ import annotations
 import copy
 import itertools
 
-from .edl import AND, C, OR, P, X, activation, block, engine, out, rule, term, var
+from .edl import AND, C, OR, P, X, activation, block, engine, fbin, fn, fnum, fvar, out, rule, term, var
 from .xreal import NAN, NINF, PINF, Q
 
 
@@ -142,6 +142,16 @@ def catalogue(quick=True):
                      [out_y(lock_prev=True, default="1/8"), out_ts(lock_range=True, default="3", lock_prev=False), out_z(lock_prev=True, lock_range=True)],
                      [block("rb", [rule(P("a", "lo"), [C("y", "s"), C("u", "c3")]), rule(P("b", "hi"), [C("u", "lin"), C("z", "p")]),
                                    rule(AND(P("a", "hi"), P("b", "lo")), [C("y", "l"), C("z", "n")])])]))
+    # Function terms: the formula reads input values, the activation degree (x) and - in the second output - the value the
+    # first output has just been given
+    f1 = out("f", -4, 4, [term("c1", "Constant", "-1/2"),
+                          fn("lin", "2.000 * a - b + 0.500", fbin("add", fbin("sub", fbin("mul", fnum("2.000"), fvar("a")), fvar("b")), fnum("0.500"))),
+                          fn("deg", "x * 4.000", fbin("mul", fvar("x"), fnum("4.000")))], defuzzifier="WeightedAverage", aggregation="none")
+    f2 = out("g", -4, 4, [fn("half", "f / 2.000 + a", fbin("add", fbin("div", fvar("f"), fnum("2.000")), fvar("a"))), term("c", "Constant", "1")],
+             defuzzifier="WeightedSum", aggregation="none")
+    cs.append(engine("ts-function", [in_a(), in_b()], [f1, f2],
+                     [block("rb", [rule(P("a", "lo"), [C("f", "c1"), C("g", "c")]), rule(P("b", "hi"), [C("f", "lin"), C("g", "half")], weight="1/2"),
+                                   rule(AND(P("a", "hi"), P("b", "lo")), [C("f", "deg")]), rule(P("a", "md"), [C("g", "half")], weight="1/4")], implication="none")]))
     cs.append(base("larsen", implication="AlgebraicProduct"))
     for e in cs:
         if e["name"].startswith(("ops", "distinguishable", "larsen", "chained", "ts-", "tsukamoto", "inverse", "hybrid", "locks")):
